@@ -230,6 +230,7 @@ func genHistCfg(s *Stream, o *GenOpts) HistCfg {
 	}
 	c.Format.Checksum = c.Checksum
 	c.Format.TableID4 = c.TableID4
+	c.Format.PadBits = s.Weighted(3, 3, 2, 1)
 	c.MasterID = []uint32{1, 2, 100, 1<<31 - 1, 1 << 31, 1<<32 - 1}[s.N(6)]
 	c.BigOffsets = o.BigOffsets && s.Chance(1, 4)
 	return c
@@ -638,7 +639,7 @@ func (b *builder) rowImage(t *TableDef, present []bool) (enc []byte, exp []ExpCo
 		vals = append(vals, v.Enc...)
 		exp = append(exp, ec)
 	}
-	enc = append(packBits(nulls), vals...)
+	enc = append(packBitsPad(nulls, b.h.Cfg.Format.PadBits >= 1), vals...)
 	return
 }
 
